@@ -83,14 +83,22 @@ func generate() {
 		levels = append(levels, P(ptttype.PERM_BM), bitHas|bitLacks)
 		adms = append(adms, adm{true, true})
 	}
+	// quick tier, bbs layer: the slice of the table with a registered, non-police caller (the whole table in thorough)
+	basics := []uint32{P(ptttype.PERM_BASIC), 0}
+	loginoks := []uint32{P(ptttype.PERM_LOGINOK), 0}
+	if bbsLayer && !thorough {
+		polices = polices[:1]
+		basics = basics[:1]
+		loginoks = loginoks[:1]
+	}
 	nrows := 0
 	// ---- the table on the ordinary board ------------------------------------------------------
 	for _, sysop := range []uint32{0, P(ptttype.PERM_SYSOP)} {
 		for _, police := range polices {
 			for _, ubm := range userBM {
 				for _, ad := range adms {
-					for _, basic := range []uint32{P(ptttype.PERM_BASIC), 0} {
-						for _, loginok := range []uint32{P(ptttype.PERM_LOGINOK), 0} {
+					for _, basic := range basics {
+						for _, loginok := range loginoks {
 							for _, over18 := range []bool{false, true} {
 								ulevel := sysop | police | ubm | basic | loginok | bitHas
 								if ad.board {
@@ -191,6 +199,9 @@ func generate() {
 	}
 	if bbsLayer {
 		nrand = 1500
+		if !thorough {
+			nrand = 300
+		}
 	}
 	interesting := []uint32{P(ptttype.PERM_BASIC), P(ptttype.PERM_LOGINOK), P(ptttype.PERM_BM), P(ptttype.PERM_BOARD), P(ptttype.PERM_SYSOP),
 		P(ptttype.PERM_POLICE), P(ptttype.PERM_POLICE_MAN), P(ptttype.PERM_POST), P(ptttype.PERM_ANGEL), P(ptttype.PERM_NOCITIZEN)}
